@@ -235,6 +235,70 @@ print('BAD:' + ';'.join(bad))
 '''
 
 
+REREGISTER = r'''
+import sys, threading
+sys.dont_write_bytecode = True
+sys.path.insert(0, %(repo)r)
+import warnings
+warnings.simplefilter('ignore')
+from pynetdicom2 import statuses, dimsemessages as d
+cmds = [None] + [getattr(d, n) for n in sorted(dir(d)) if n.endswith('RSPMessage')]
+codes = [0x0000, 0x0001, 0x0107, 0x0116, 0x0110, 0x0122, 0xA700, 0xA701, 0xA702, 0xA801, 0xA900, 0xAA00, 0xB000, 0xB006, 0xB007,
+         0xC000, 0xC123, 0xCFFF, 0xFE00, 0xFF00, 0xFF01, 0x1234]
+def table():
+    return {(getattr(c, '__name__', None), code): statuses.Status(code, c).status_type for c in cmds for code in codes}
+base = table()
+bad = []
+# (1) the library's own registration run again, sequentially: nothing changes
+statuses.register_statuses()
+if table() != base:
+    bad.append('classification changed after register_statuses() was run a second time')
+# (2) ... and while another thread classifies (1 microsecond switch interval)
+sys.setswitchinterval(1e-6)
+done = threading.Event()
+errors = []
+def again():
+    try:
+        for _ in range(150):
+            statuses.register_statuses()
+    except Exception as exc:
+        errors.append(repr(exc))
+    finally:
+        done.set()
+t = threading.Thread(target=again)
+t.start()
+n = 0
+while not done.is_set() or n < 3:
+    now = table()
+    n += 1
+    if now != base:
+        k = sorted((x for x in base if now.get(x) != base[x]), key=lambda x: (str(x[0]), x[1]))[0]
+        bad.append('while register_statuses() runs again in another thread: Status(0x%%04X, %%s) is %%s, was %%s' %% (k[1], k[0], now.get(k), base[k]))
+        break
+t.join()
+if errors:
+    bad.append('register_statuses() run again raised ' + errors[0])
+print('ROUNDS:%%d' %% n)
+print('BAD:' + ';'.join(bad))
+'''
+
+
+def reregistration(ctx):
+    """The registration of the built-in table is a public function: running it again - sequentially, and in one thread
+    while another classifies - leaves every classification as it was."""
+    code = REREGISTER % {'repo': REPO}
+    res = subprocess.run([sys.executable, '-c', code], capture_output=True, text=True, env=dict(os.environ, PYTHONHASHSEED='0'),
+                         cwd=VERIF_DIR)
+    line = [l for l in res.stdout.splitlines() if l.startswith('BAD:')]
+    if res.returncode != 0 or not line:
+        raise HarnessError('C18 re-registration subprocess failed: %s %s' % (res.stdout, res.stderr))
+    rounds = [int(l[7:]) for l in res.stdout.splitlines() if l.startswith('ROUNDS:')]
+    ctx.case(('reregistration',), True, labels=('re-registration while classifying',),
+             sample={'re-registration': 'register_statuses() x150 in a thread, %d full classification rounds meanwhile' % (rounds[0] if rounds else 0)})
+    if line[0][4:]:
+        ctx.fail('C18:reregistration', line[0][4:], {'kind': 'reregistration'})
+
+
 def metamorphic(ctx):
     code = METAMORPHIC % {'repo': REPO}
     env = dict(os.environ, PYTHONHASHSEED='0')
@@ -303,6 +367,7 @@ def run(ctx):
     alt_forms(ctx, statuses, cmds)
     copies(ctx, statuses, cmds)
     metamorphic(ctx)
+    reregistration(ctx)
 
 
 def history(ctx, statuses, cmds):
@@ -404,6 +469,13 @@ def replay(case):
         from ..common import Ctx
         c = Ctx('C18', 'quick', 1)
         metamorphic(c)
+        for key, ent in c.failures.items():
+            raise Violation(key, ent['what'], ent['case'])
+        return
+    if case.get('kind') == 'reregistration':
+        from ..common import Ctx
+        c = Ctx('C18', 'quick', 1)
+        reregistration(c)
         for key, ent in c.failures.items():
             raise Violation(key, ent['what'], ent['case'])
         return
